@@ -4,11 +4,21 @@ namespace Canopen.Driver.C05
 open Canopen Canopen.Codec Canopen.Pdo
 
 /-- layout spelled `t:len,t:len,…` -/
-def parseLayout (s : String) : Option (List (Nat × Nat)) :=
+def parseLayout1 (s : String) : Option (List (Nat × Nat)) :=
   (s.splitOn ",").mapM fun e =>
     match e.splitOn ":" with
     | [t, l] => do let t ← t.toNat?; let l ← l.toNat?; pure (t, l)
     | _ => none
+
+/-- `PdoMap.clear()` leaves no variables and length 0 -/
+def mapClear (_ : List (Nat × Nat)) : List (Nat × Nat) := []
+
+/-- `old|new`: a map holding `old` is cleared, then `new` is mapped -/
+def parseLayout (s : String) : Option (List (Nat × Nat)) :=
+  match s.splitOn "|" with
+  | [l] => parseLayout1 l
+  | [old, new] => do let o ← parseLayout1 old; let n ← parseLayout1 new; pure (mapClear o ++ n)
+  | _ => none
 
 def showOpt : Option Bytes → String
   | some bs => s!"ok {toHex bs}"
